@@ -515,7 +515,10 @@ def process_fn(text, block, applied, canary=False):
             loop_dirs.setdefault(int(mm.group(1)), []).append((mm.group(2), val))
     for n, items in loop_dirs.items():
         if n < 1 or n > len(loops):
-            raise R.LostAnchor("%s: loop %d not found (%d loops)" % (block.path, n, len(loops)))
+            # the loop the invariant was written for is gone (e.g. rewritten as straight-line code):
+            # the function is still checked against its contract, without that ghost text
+            applied.add("G loop %d invariants skipped: the current body has %d loop(s)" % (n, len(loops)))
+            continue
         lm = loops[n - 1]
         k = lm.end()
         par = 0
